@@ -40,6 +40,8 @@ def main():
         if not os.path.exists(patch):
             continue
         meta = json.load(open(os.path.join(d, 'meta.json')))
+        if meta.get('superseded'):
+            print('%s: superseded by a later repair, skipped (%s)' % (sid, meta['superseded'][:60])); continue
         benign = meta.get('kind') == 'benign'   # behaviour-preserving change: every check must stay silent
         target = None if benign else meta['property']
         r = sh(['git', '-C', REPO, 'apply', patch])
